@@ -30,14 +30,14 @@ use std::sync::Mutex as StdMutex;
 static EXECS: AtomicU64 = AtomicU64::new(0);
 static OUTCOMES: StdMutex<BTreeSet<Outcome>> = StdMutex::new(BTreeSet::new());
 
-fn explore(threads: u32, k: usize, serial: bool, bound: Option<usize>) -> (u64, BTreeSet<Outcome>) {
+fn explore(threads: u32, k: usize, serial: bool, bound: Option<usize>, cold: bool) -> (u64, BTreeSet<Outcome>) {
     EXECS.store(0, Ordering::SeqCst);
     OUTCOMES.lock().unwrap().clear();
     let mut b = loom::model::Builder::new();
     b.preemption_bound = bound;
     b.max_branches = 100_000;
     b.check(move || {
-        let o = run_once(threads, k, serial);
+        let o = run_once(threads, k, serial, cold);
         EXECS.fetch_add(1, Ordering::SeqCst);
         OUTCOMES.lock().unwrap().insert(o);
     });
@@ -51,10 +51,28 @@ fn main() {
     let bound: Option<usize> = args.get(3).and_then(|s| s.parse().ok());
     println!("REWRITES {:?}", notes::REWRITES);
     println!("HAS_STATIC_MUT {}", notes::HAS_STATIC_MUT);
-    let (n1, rseq) = explore(threads, k, true, bound);
+    // the shape a thread's tie-merges produce when it is alone
+    let solo_shape = {
+        OUTCOMES.lock().unwrap().clear();
+        let mut b = loom::model::Builder::new();
+        b.preemption_bound = bound;
+        b.check(move || {
+            let o = run_once(1, k, false, false);
+            OUTCOMES.lock().unwrap().insert(o);
+        });
+        let set = OUTCOMES.lock().unwrap().clone();
+        let shapes: BTreeSet<Vec<u32>> = set.iter().map(|o| o.threads[0].tie_shape.clone()).collect();
+        println!("SOLO_SHAPES {}", shapes.len());
+        shapes.into_iter().next().unwrap_or_default()
+    };
+    let (n1, rseq) = explore(threads, k, true, bound, false);
     println!("SERIAL executions={} outcomes={}", n1, rseq.len());
-    let (n2, rpar) = explore(threads, k, false, bound);
+    let (n2, rpar) = explore(threads, k, false, bound, false);
     println!("PARALLEL executions={} outcomes={}", n2, rpar.len());
+    // cold start: nothing has created a node before the threads do
+    let (n3, cseq) = explore(threads, k, true, bound, true);
+    let (n4, cpar) = explore(threads, k, false, bound, true);
+    println!("COLD serial_executions={} serial_outcomes={} executions={} outcomes={}", n3, cseq.len(), n4, cpar.len());
     // self-check: the generator state must be re-created for every execution, otherwise loom is not
     // looking at it (the main thread draws first, before anything can interfere)
     let mains: BTreeSet<u32> = rseq.iter().chain(rpar.iter()).map(|o| o.main).collect();
@@ -63,18 +81,20 @@ fn main() {
         println!("SAMPLE {}", outcome_json(o));
     }
     let mut bad = 0;
-    for o in &rpar {
-        if let Err(m) = check_results(o, k) {
-            println!("BAD_RESULTS {} :: {}", m, outcome_json(o));
-            bad += 1;
-            break;
+    for (set, reference, label) in [(&rpar, &rseq, "warm"), (&cpar, &cseq, "cold")] {
+        for o in set.iter() {
+            if let Err(m) = check_results(o, k, &solo_shape) {
+                println!("BAD_RESULTS [{label}] {} :: {}", m, outcome_json(o));
+                bad += 1;
+                break;
+            }
         }
-    }
-    for o in &rpar {
-        if !rseq.contains(o) {
-            println!("NOT_SERIALISABLE {}", outcome_json(o));
-            bad += 1;
-            break;
+        for o in set.iter() {
+            if !reference.contains(o) {
+                println!("NOT_SERIALISABLE [{label} start] {}", outcome_json(o));
+                bad += 1;
+                break;
+            }
         }
     }
     println!("DONE bad={}", bad);
